@@ -545,4 +545,16 @@ def r8_12(ctx):
             raise AnalysisError(f"ProgressBar.__rich_console__: the fill quantity `{norm(X)}` is neither the clamp of self.completed to [0, self.total] nor the raw value; not decided")
 
 
-RULES = [r8_3, r8_4, r8_5, r8_6, r8_7, r8_8, r8_9, r8_10, r8_11, r8_12]
+def r8_13(ctx):
+    from .c01 import r1_1
+    from .common import borrow
+    borrow(ctx, r1_1, "R1.1", "R8.13", " [a frame is an exact rectangle only if its child is rendered at no more than the inner width]")
+
+
+def r8_14(ctx):
+    from .c13 import r13_7
+    from .common import borrow
+    borrow(ctx, r13_7, "R13.7", "R8.14", " [the child's lines are cropped / padded to the inner width in cells]")
+
+
+RULES = [r8_3, r8_4, r8_5, r8_6, r8_7, r8_8, r8_9, r8_10, r8_11, r8_12, r8_13, r8_14]
